@@ -252,6 +252,13 @@ class Interp:
         if name in s.m.funcs or name in s.m.decls: return FnPtr(name)
         if name in ('@_ZSt4cout', '@_ZSt4cerr', '@_ZSt4clog'):
             r = make_ostream(s, name); s.gaddr[name] = r; return r
+        if name.startswith('@_ZTTSt14basic_ofstream') or name.startswith('@_ZTTSt14basic_ifstream'):
+            # VTT of the file streams (used by their inlined destructors): every entry points to a vtable whose
+            # virtual-base offset is that of basic_ios inside the stream object (libstdc++ x86-64: 248 / 256)
+            vt = s.alloc(128, name + '-vtable(model)'); s.zerofill(vt, 128); s.store(Ptr(vt.obj, 64 - 24), 248 if 'ofstream' in name else 256, 8)
+            r = s.alloc(64, name + '(model)')
+            for k in range(8): s.store(Ptr(r.obj, 8 * k), Ptr(vt.obj, 64), 8)
+            s.gaddr[name] = r; return r
         rest = s.m.globals.get(name)
         if rest is None: raise Unsupported('unknown global ' + name)
         toks = tokenize(rest); p = P(toks)
@@ -646,7 +653,9 @@ class Interp:
         s.funcs_run.add(fname); s.callstack.append(fname)
         try: return s._run(f, fname, args)
         except Unsupported as e:
-            if not getattr(e, 'where', None): e.where = list(s.callstack)
+            if not getattr(e, 'where', None):
+                e.where = list(s.callstack); ci = s.__dict__.get('cur_ins')
+                if ci: e.at = '%s %s: %s %s' % (ci[0][-60:], ci[1], ci[2].op, {k: v for k, v in ci[2].__dict__.items() if k in ('res', 'ptr', 'callee')})
             raise
         finally: s.callstack.pop()
     def _run(s, f, fname, args):
@@ -668,6 +677,7 @@ class Interp:
             env.update(newv)
             nxt = None
             for ins in insl[k:]:
+                s.cur_ins = (fname, lbl, ins)
                 s.icount += 1
                 if s.icount > s.max_instr: raise Unsupported('instruction budget exceeded')
                 op = ins.op
